@@ -71,6 +71,16 @@ class Owner(revent.EventMixin):
     self._rig = rig
     self._name = name
 
+  # In some variants the owners are value-like objects: distinct instances that compare equal.  Whose handler an
+  # unsubscription by handler names is a matter of the owner's IDENTITY (as it is for bound methods in Python).
+  def __eq__(self, other):
+    if getattr(self._rig, "eqowners", False) and isinstance(other, Owner):
+      return True
+    return self is other
+
+  def __hash__(self):
+    return 7 if getattr(self._rig, "eqowners", False) else object.__hash__(self)
+
   def h(self, ev):
     return self._rig.invoked(self, "h", ev)
 
@@ -115,11 +125,12 @@ def make_source(types, decl):
 
 class Adapter(object):
   def __init__(self, types=("A", "B"), hook="none", prios="std", decl="class",
-               owners=("o1", "o2", "o3"), arbiter=None):
+               owners=("o1", "o2", "o3"), arbiter=None, eqowners=None):
     # arbiter: trace cfg; set in recorded replay files so that `./check C05
     # --replay FILE` decides a run that leaves the recorded behaviour the way
     # the check does (TLC validates the run as observed) instead of by equality
     self.arbiter = arbiter
+    self.eqowners = (prios == "unit") if eqowners is None else eqowners     # (the "unit" variant has value-like owners)
     self.log = []
     self.skip = False
     self.types = sorted(types)
